@@ -269,13 +269,17 @@ theorem rings_use_each_way_once (ws : List Way) (ms : List Int64) (loops : List 
     · cases h'
     · exact h'
 
-/-- The remaining clause — for an input whose ways form disjoint cycles (`disjointCycles`: distinct members,
-every end node shared by exactly two way-ends) every loop is *closed*, i.e. the chain ends at the node it
-started at. NOT proved here (the proof needs a parity invariant over the seen way-ends of every node); the
-correspondence run evaluates `isClosedRing` on the real code's loops for every generated input of the class. -/
+/-- **Disjoint cycles ⇒ closed rings.** For an input whose ways form disjoint cycles (`disjointCycles`: distinct
+members, every one found with nodes, every end node carrying exactly two member way-ends) every loop the
+stitching produces is *closed*: its chain ends at the node it started at. (Parity invariant: at every node the
+number of way-ends of ways seen so far is 0 or 2, except 1 at the first node of the loop being built and at the
+current joint; when the joint reaches the first node, the only other way there is the start way.) -/
 def rings_closed_statement : Prop :=
   ∀ (ws : List Way) (ms : List Int64) (loops : List (List Int64)),
     disjointCycles ws ms = true → rings ws ms = .ok loops → ∀ l ∈ loops, isClosedRing ws l = true
+
+theorem rings_closed_of_disjoint_cycles : rings_closed_statement :=
+  fun _ _ _ hc h => rings_closed hc h
 
 /-- a closed ring is a chain that comes back to its first node -/
 theorem closed_iff_chain_returns (ws : List Way) (id : Int64) (rest : List Int64) (a b : Int64)
